@@ -70,6 +70,10 @@ def showRanges : List Nat → String
   | [] => "-"
   | v :: r => ",".intercalate (rangesAcc v v r)
 
+/-- Values as the Go API reports them: `key<<16 | low` in uint64 (a key of 2^48 or more, possible
+only in malformed input, wraps). -/
+def showValues (vs : List Nat) : String := showRanges (vs.map (· % 18446744073709551616))
+
 def typLetter (t : Nat) : String :=
   if t = cArray then "a" else if t = cBitmap then "b" else if t = cRun then "r" else s!"t{t}"
 
@@ -81,12 +85,11 @@ def showErr {α : Type} : Res α → String
   | .err e => "err:" ++ e.name
   | .panic s => "panic:" ++ s
 
-def entriesWf (es : List Entry) : Bool := es.all (fun e => e.c.wf e.n)
 
 /-- The part of a decode result the harness can also observe. `withTypes`: list the containers. -/
 def showDecodedCore (withTypes : Bool) (r : Decoded) : String :=
   s!"f={r.flags}" ++ (if withTypes then " c=" ++ showEntries r.cs else "")
-    ++ " v=" ++ showRanges r.vals.values ++ s!" ops={r.ops},{r.opN}"
+    ++ " v=" ++ showValues r.vals.values ++ s!" ops={r.ops},{r.opN}"
 
 /-- Decode `d`, then decode the buffer the first call left behind once more.  Second
 component: the container listing of the first decode (`?` when it failed). -/
